@@ -9,6 +9,7 @@ R1 RIGHTS-MONOTONE (a proof, not a sample): from make_move, make_move_new and nu
 R3 RIGHTS-FOLLOW-PLACEMENT (= C02.R5) and R4 MATERIAL-TOGGLES (= C02.R7/R8): rights are dropped,
    unconditionally, for the opponent by the destination square and for the mover by the source
    square; every placement toggle is one of the prescribed remove/add pairs.
+R5 PROMOTION-FLAG (= C01.R3): pawn moves onto the last rank are generated as promotions for pinned and unpinned pawns alike.
 R2 SANITY-GATE: Board literals exist only in the private constructor; every public construction of a
    Board from non-Board data returns Ok only on the true edge of is_sane() evaluated on exactly the
    value returned, or delegates to such a constructor."""
@@ -177,7 +178,17 @@ def r34(ctx):
         c02.r48(sub, sn)
 
 
+def r5(ctx):
+    """R5 PROMOTION-FLAG (= C01.R3): every generated pawn move onto the last rank is a promotion (the flag of a pawn entry is
+    `source on the seventh rank`, for pinned and unpinned pawns alike), so legal play never leaves a pawn on the first or last
+    rank; with C02.R8 the pawn is replaced by the promotion piece."""
+    from . import c01
+    sub = Sub(ctx, {'C01.R3': 'C05.R5'})
+    c01.r3(sub)
+
+
 def run(ctx):
     r1(ctx)
     r2(ctx)
     r34(ctx)
+    r5(ctx)
